@@ -396,6 +396,19 @@ func vfFuzzCase(c *vfCtx, i int) {
 		trimVT100(ch)
 		(&trzszTransfer{}).stripTmuxStatusLine(append([]byte(nil), ch...))
 	}
+	// every truncation of sequences the output scanners look for, as the end of one read
+	seqs := []string{"\x1b]52;c;aGVsbG8=\x07", "\x1b]52;p;QUJD\x1b\\", "x\x1b]52;c;QQ==\x07y\x1b]52;", "**\x18B0100000023be50\r\x8a\x11", "::TRZSZ:TRANSFER:S:1.1.5:1234567890123:80\r\n", "<ENABLE_TRZSZ_TRACE_LOG>", "\x1b[200~/tmp/x\x1b[201~"}
+	seq := seqs[i%len(seqs)]
+	for k := 1; k <= len(seq); k++ {
+		ch := []byte(seq[:k])
+		if v, _, _ := vfModelDetect(ch, false, false, false, &vfIDHistory{}); v != 0 || detectZmodemModel(ch) {
+			continue
+		}
+		rig.serverOut.WriteAtomic(ch)
+		rig.clientIn.WriteAtomic([]byte("\r"))
+		time.Sleep(time.Millisecond)
+		n++
+	}
 	time.Sleep(20 * time.Millisecond)
 	c.Obs("fuzz_chunks", int64(n))
 	c.Nontrivial(fmt.Sprintf("fuzz-%d", i))
